@@ -624,7 +624,7 @@ func initWindows() {
 		{gs: rd, baseX: 120000, baseY: 480000, G: 24, maxID: 10, minID: 8, weight: 2, far: true},
 		{gs: rd, baseX: 155000, baseY: 463000, G: 24, maxID: 5, minID: 3, weight: 1},
 		{gs: wm, baseX: 550000, baseY: 6800000, G: 24, maxID: 18, minID: 16, weight: 2, far: true},
-		{gs: wm, baseX: -0.25, baseY: -0.2, G: 24, maxID: 18, minID: 16, weight: 1}, // astride the centre lines of the extent (root quadrants; the extent does not divide evenly here)
+		{gs: wm, baseX: -0.25, baseY: -0.2, G: 24, maxID: 18, minID: 16, weight: 1},       // astride the centre lines of the extent (root quadrants; the extent does not divide evenly here)
 		{gs: wm, baseX: 15550000, baseY: 4250000, G: 24, maxID: 20, minID: 19, weight: 1}, // levels 31 and 32, far from the origin
 		{gs: laea, baseX: 4000000, baseY: 3200000, G: 24, maxID: 14, minID: 12, weight: 2},
 	}
